@@ -7,6 +7,7 @@ import (
 	"reflect"
 	"sort"
 	"strings"
+	"testing/synctest"
 
 	"github.com/go-kit/log"
 	config_util "github.com/prometheus/common/config"
@@ -18,6 +19,7 @@ import (
 
 	"kvassverif/cfggen"
 	"kvassverif/core"
+	"kvassverif/sched"
 	"kvassverif/sidecarsim"
 
 	"tkestack.io/kvass/pkg/prom"
@@ -118,6 +120,12 @@ func genC11Assignment(tp *core.Tape, jobs []string, avoidBadName bool) c11Asg {
 }
 
 func c11Run(tp *core.Tape, e *core.Env) {
+	if problem := sidecarsim.InBubble(e.T, func() { c11Body(tp, e) }); problem != "" {
+		e.Undecided("node engine (C11): %s", problem)
+	}
+}
+
+func c11Body(tp *core.Tape, e *core.Env) {
 	dir := filepath.Join(e.Scratch, fmt.Sprintf("c11-%d", e.RunIndex))
 	_ = os.RemoveAll(dir)
 	_ = os.MkdirAll(dir, 0o755)
@@ -182,6 +190,63 @@ func c11Run(tp *core.Tape, e *core.Env) {
 	check("start")
 	nOps := tp.Range("n_ops", 2, 6)
 	for i := 0; i < nOps && !e.Failed(); i++ {
+		if curTree != nil && tp.Bool("concurrent_config_and_targets", 1, 5) {
+			// a configuration change and a new assignment arrive at the same time (two HTTP requests):
+			// every Lock() in pkg/sidecar is a scheduling point, the order is drawn
+			newConfig()
+			asg = genC11Assignment(tp, curJobs, e.AvoidKnown && e.Known.OpenTrigger("C11", "label_name_invalid_after_prefix"))
+			if fileMode {
+				_ = os.WriteFile(opt.ConfigFile, []byte(curText), 0o644)
+			}
+			s := sched.Install()
+			var errC, errT error
+			doneC, doneT := make(chan struct{}), make(chan struct{})
+			go func() {
+				defer close(doneC)
+				if fileMode {
+					errC = sc.ReloadFile()
+				} else {
+					errC = sc.PushConfig(curText)
+				}
+			}()
+			go func() {
+				defer close(doneT)
+				errT = sc.PostTargets(&shard.UpdateTargetsRequest{Targets: asg})
+			}()
+			finished := func(c chan struct{}) bool {
+				select {
+				case <-c:
+					return true
+				default:
+					return false
+				}
+			}
+			yields := 0
+			for step := 0; step < 400; step++ {
+				synctest.Wait()
+				pend := s.Pending()
+				if len(pend) == 0 {
+					break
+				}
+				yields++
+				s.Release(pend[tp.Choose("yield", len(pend))])
+			}
+			s.Uninstall()
+			synctest.Wait()
+			if !finished(doneC) || !finished(doneT) {
+				e.Violate("concurrent-requests-stuck", "", "a configuration change and a target update sent at the same time: not both requests returned")
+				return
+			}
+			if errC != nil || errT != nil {
+				e.Undecided("concurrent config (%v) / targets (%v) rejected", errC, errT)
+				return
+			}
+			ops = append(ops, fmt.Sprintf("concurrent config+targets (%d scheduling points)", yields))
+			e.Logf("op %d concurrent config jobs=%v + targets, %d scheduling points", i, curJobs, yields)
+			e.Probe("concurrent_config_and_targets")
+			check("concurrent-config-and-targets")
+			continue
+		}
 		if tp.Bool("op_is_config", 2, 5) || (curTree == nil && tp.Bool("first_config", 1, 2)) {
 			newConfig()
 			var err error
